@@ -24,12 +24,16 @@ TIERS = {
 RULE = ("each evaluation is one seeded importer session (4-28 commands) over "
         "a generated graph of <= 5 user modules (public/private constants "
         "and functions, a mutable state cell with accessors, LOAD mark, "
-        "dependencies in every import form, optional importer-probe, "
-        "optional top-level failure, optional 2-/3-cycle) on a simulated "
+        "a public data definition the module re-assigns, dependencies in "
+        "every import form (also guarded by catch all), optional importer-"
+        "probe, optional top-level failure, optional 2-/3-cycle, optional "
+        "second module differing only in case) on a simulated "
         "module store (home / 1-2 module-path directories with shadowing), "
-        "with read faults and torn reads; after every command the visible "
-        "names are compared with the namespace model and the stdout LOAD "
-        "ledger with the load model; distinct = distinct (graph shape, "
+        "with read faults and torn reads; importers are the session, "
+        "functions (called repeatedly), other modules and caller-supplied "
+        "environments; after every command the visible names, and on "
+        "request the members of a module object, are compared with the "
+        "namespace model and the stdout LOAD ledger with the load model; distinct = distinct (graph shape, "
         "sequence of import forms x modules); non-trivial = the same module "
         "was required at least twice through different forms or importers")
 REAL = ["ckl.nodes.NodeRequire and all node evaluation", "ckl.parser",
@@ -86,8 +90,15 @@ def module_ir(rng, i, mid, deps, opts):
                [["ret", ["op", "+", ["v", f"_p{i}"],
                          ["call", f"_h{i}", []]]]]])
     for (j, dep) in deps:
-        form = rng.choice(["plain", "as", "unq", "imp"])
-        if form == "plain":
+        form = rng.choice(["plain", "as", "unq", "imp", "guarded"])
+        if form == "guarded":
+            # the dependency may fail (cycle, broken module): this module
+            # catches that and goes on loading
+            ir.append(["blk", [["req", "plain", {"id": dep}, None],
+                               ["mark", f"DEP-OK {mid}>{dep}"]],
+                       [[None, [["mark", f"DEP-FAILED {mid}>{dep}"]]]],
+                       None])
+        elif form == "plain":
             ir.append(["req", "plain", {"id": dep}, None])
             ir.append(["def", f"d{i}_{j}", ["mget", dep, f"c{j}_a"]])
             ir.append(["deffn", f"depbump{i}_{j}", [],
@@ -228,7 +239,9 @@ def gen_case(rng, tier, k):
         elif form == "imp":
             cands = [f"c{i}_a", f"bump{i}", f"peek{i}", f"f{i}_x",
                      f"_p{i}", f"_h{i}", "_st", "nosuch", f"tail{i}",
-                     "bump", f"usepriv{i}", f"probe{i}"]
+                     "bump", f"usepriv{i}", f"probe{i}",
+                     # defined by the base environment, not by the module
+                     "length", "join", "stdout", "max", "NULL"]
             picks = rng.sample(cands, rng.randrange(1, 5))
             extra = [[c, c if rng.random() < 0.4 else
                       "i" + c.strip("_") + rng.choice("xy")]
@@ -250,8 +263,7 @@ def gen_case(rng, tier, k):
         s = scope
         while s is not None:
             for nme, v in s.vars.items():
-                if isinstance(v, lang.Fn) and nme not in s.unspec and \
-                        not nme.startswith("imp_f"):
+                if isinstance(v, lang.Fn) and nme not in s.unspec:
                     out.append((nme, v))
             s = s.parent
         return sorted(out, key=lambda t: t[0])
@@ -338,7 +350,7 @@ def gen_case(rng, tier, k):
                      "err": "SHORT:" + str(rng.randrange(0, 14))},
                     {"site": "out.write", "nth": 0, "err": "EIO"},
                 ])]
-        elif r < 0.52:
+        elif r < 0.56:
             # require from inside a function, then call it
             nfn[0] += 1
             rq, mid = gen_require(scope, m)
@@ -351,10 +363,19 @@ def gen_case(rng, tier, k):
                 use = ["mget", rq[-1][3], f"c{i}_a"]
             elif form == "unq":
                 use = ["v", f"c{i}_a"]
-            else:
+            elif form != "imp":
                 use = 5
+            else:
+                # make sure the import list names something real, under an
+                # alias, and use it: the same require statement node runs
+                # again every time the function is called
+                rq[-1][3] = [[f"c{i}_a", f"ia{nfn[0]}"]] + [
+                    pr for pr in rq[-1][3] if pr[0] != f"c{i}_a"][:2]
+                use = ["v", f"ia{nfn[0]}"]
             stmts = [["deffn", fname, [], rq + [["ret", use]]],
                      ["expr", ["call", fname, []]]]
+            if rng.random() < 0.85:
+                stmts.append(["expr", ["call", fname, []]])
         elif r < 0.60 and objs_of(scope):
             # what exactly does a module object expose?
             name, obj = rng.choice(objs_of(scope))
